@@ -78,8 +78,7 @@ Section Gen.
   Definition g_trim_collinear (p : list P) (is_open : bool) : res (list P) :=
     let len := length p in
     if len <? 3 then
-      if negb is_open || (len <? 2) then Ok []
-      else a <- rd p 0 ;; b <- rd p 1 ;; if eqb a b then Ok [] else Ok p
+      if negb is_open || (len <? 2) then Ok [] else Ok p
     else
       let stop0 := len - 1 in
       ss <- (if negb is_open then
@@ -166,13 +165,13 @@ End Gen.
 
 (* ---------- instances: build without USINGZ ---------- *)
 Definition area2_sign_nonneg (q : list pt) : bool := (0 <=? area2 q)%Z.   (* exact sign; the code's double sum is exact below 2^26 *)
-Definition trim_collinear2 := g_trim_collinear pt_eqb is_collinear.
+Definition trim_collinear2 := g_trim_collinear is_collinear.
 Definition strip_duplicates2 := g_strip_duplicates pt_eqb.
 Definition minkowski2 (sum : bool) :=
   g_minkowski (fun p q => if sum then padd p q else psub p q) area2_sign_nonneg.
 
 (* ---------- instances: USINGZ build ---------- *)
-Definition trim_collinear_z := g_trim_collinear point_eqb3 is_collinear3.
+Definition trim_collinear_z := g_trim_collinear is_collinear3.
 Definition strip_duplicates_z := g_strip_duplicates point_eqb3.
 (* operator+ / operator- construct Point(x, y): z defaults to 0 *)
 Definition padd3 (p q : pt3) : pt3 := (padd (erase p) (erase q), 0%Z).
